@@ -32,10 +32,10 @@ ANCHORS = ["WrappedInstance.__post_init__", "SymbolGraph.remove_node", "SymbolGr
            "MonitoredContainer._bind_owner", "SymbolicExpression.__post_init__", "HashedIterable.__iter__"]
 
 OPS = ["create", "create", "relate", "relate", "q_domain", "q_domainless", "q_rule", "q_match", "q_partial",
-       "q_domainless_first", "q_domainless_closed", "q_domainless_the"]
+       "q_domainless_first", "q_domainless_closed", "q_domainless_the", "q_domainless_rule"]
 # queries without a given domain look their values up when they are evaluated and let go of them afterwards: a history
 # whose queries are all of these kinds leaves nothing alive, however its evaluations ended
-DOMAINLESS_QUERY_OPS = ("q_domainless", "q_domainless_first", "q_domainless_closed", "q_domainless_the")
+DOMAINLESS_QUERY_OPS = ("q_domainless", "q_domainless_first", "q_domainless_closed", "q_domainless_the", "q_domainless_rule")
 KNOWN_GROWING = ("_id_expression_map_", "RWXNode._graph", "lru:", "_symbolic_expression_stack_")
 
 
@@ -137,6 +137,22 @@ def body(om, ops, census):
             except Exception as e:
                 res = None
                 del e
+            evaluated += 1
+        elif op == "q_domainless_rule":
+            # a rule tree (with a branch: what it concluded for is remembered per evaluation) over a domain-less variable
+            from krrood.entity_query_language.rule import alternative
+            from vlib import eqlmodel
+            x = let(om.Org if i % 2 else om.Person, None, name="x")
+            v = inference(eqlmodel.V)()
+            q = an(entity(v, x.name != "nobody"))
+            with q:
+                Add(v, inference(eqlmodel.V)(tag="base", p=x))
+                with alternative(x.name == "nobody"):
+                    Add(v, inference(eqlmodel.V)(tag="alt", p=x))
+            if j % 3 == 0:
+                next(iter(q.evaluate()), None)
+            else:
+                res = list(q.evaluate())
             evaluated += 1
         elif op == "q_partial":
             x = let(om.Person, iter(list(persons)), name="x")
